@@ -49,7 +49,10 @@ type Context struct {
 	controllercontext.Context
 	Cfg *Configs
 	St  *Stores
+	Cs  *Clientsets
 }
+
+func (c *Context) Clientsets() controllercontext.Clientsets { return c.Cs }
 
 func (c *Context) Configs() controllercontext.Configs { return c.Cfg }
 func (c *Context) Stores() controllercontext.Stores   { return c.St }
